@@ -118,9 +118,16 @@ def run(tier, seed):
         spec = rnd.choice(junk + ['1.2.3', '^1.2.3', 'v1.2.3', 'v1', 'v1.2', '1.2.3-beta', 'v2.0.0+incompatible', 'v0.0.0-20210101000000-abcdefabcdef', '>=1.0.0 <2.0.0', '~1.2', 'latest', 'beta'])
         versions = rnd.sample(['1.2.3', '1.2.4', '2.0.0', 'v1.2.3', 'v1', 'v2.0.0', '1.0.0', '0.9.0', 'junk', '3.0.0-rc.1', 'v2.0.0+incompatible', '1.2.3-beta'], rnd.choice([0, 2, 5]))
         tags = {'latest': rnd.choice(versions + ['junk'])} if versions and rnd.random() < 0.2 else None
-        fills, marked = rnd_fills(rnd, versions, tags)
+        bad_target = None
+        if i % 5 == 0:
+            # a dist-tag (well-known name or not) that IS cached and points at something that is not a version:
+            # 'Invalid version format: <tag>' is due, whatever the tag is called
+            spec = rnd.choice(['beta', 'next', 'canary', 'latest', 'legacy', 'rc'])
+            bad_target = rnd.choice(['garbage!', '5.0.0.beta1', 'not a version'])
+            tags = {'latest': rnd.choice(versions + ['1.2.3']), spec: bad_target} if spec != 'latest' else {'latest': bad_target}
+        fills, marked = rnd_fills(rnd, versions, tags, mark_p=0.0 if bad_target else 0.06)
         send.append({'eco': eco, 'name': 'p', 'spec': spec, 'ignore_pre': rnd.random() < 0.6, 'fills': fills})
-        meta.append({'kind': 'raw', 'marked': marked})
+        meta.append({'kind': 'raw', 'marked': marked, 'bad_target': bad_target})
     cases, err = C.run_harness('verdict', 0, 0, stdin='\n'.join(json.dumps(x) for x in send) + '\n', timeout=3000)
     if err:
         rep.broke('harness verdict', err)
@@ -144,6 +151,12 @@ def run(tier, seed):
             ok = d in ([2, f'Update available: {inp["spec"]} -> {lat}'], [1, f'Version {inp["spec"]} not found in registry'], [1, f'Invalid version format: {inp["spec"]}'])
             if not ok:
                 rep.violation('diagnostic message does not quote the checked spec / cached latest verbatim', {'input': inp, 'impl': o})
+        if m.get('bad_target') and o['latest'] is not None:
+            # the tag map that is in force is the last non-empty one stored: the planted one unless a later fill replaced it
+            last = [f for f in inp['fills'] if f['op'] == 'tags' and f['m']]
+            if last and dict(map(tuple, last[-1]['m'])).get(inp['spec']) == m['bad_target'] and d != [1, f'Invalid version format: {inp["spec"]}']:
+                rep.violation(f'{inp["eco"]}: the spec {inp["spec"]!r} is a cached dist-tag pointing at {m["bad_target"]!r} (not a version): '
+                              f"'Invalid version format' is due, published {o['diags']}", {'input': inp, 'impl': o})
         key = f'({C.g_bytes(REGSTR[inp["eco"]])}, {C.g_bytes(inp["name"])})'
         if m['marked']:
             # open finding: a package marked nonexistent that still has versions keeps getting verdicts
